@@ -7,7 +7,7 @@ use std::collections::HashSet;
 pub fn run(tier: Tier, seed: u64, ev: &mut Evidence) -> Vec<Violation> {
     let (n_g01, n_tpl, n_g05, n_g02) = match tier {
         Tier::Quick => (500u64, 450u64, 300u64, 150u64),
-        Tier::Thorough => (40_000u64, 20_000u64, 20_000u64, 8_000u64),
+        Tier::Thorough => (16_000u64, 10_000u64, 10_000u64, 4_000u64),
     };
     ev.rule = "workloads: G01 sessions, G05 continuation sessions, G02 scope skeletons and allocation-heavy templates (lists, vectors, strings+string->symbol, closures, \
                continuations, eval, variadic/apply, deep recursion, heap growth, long procedures later redefined, promises); per workload \
